@@ -37,6 +37,8 @@ pub struct ReplicaProp {
     s: Option<Session>,
     /// monitor state: per case
     mon: Monitor,
+    /// the last justification the replica handed to its proposer (abstract)
+    last_notify: Option<Value>,
 }
 
 #[derive(Default)]
@@ -61,6 +63,7 @@ impl ReplicaProp {
             rt: tokio::runtime::Builder::new_current_thread().enable_all().build().unwrap(),
             s: None,
             mon: Monitor::default(),
+            last_notify: None,
         }
     }
 
@@ -93,10 +96,15 @@ impl ReplicaProp {
         let mut op = op.clone();
         let mut env = self.env();
         let rt = &self.rt;
+        let _guard = rt.enter();
         let s = self.s.as_mut().expect("init first");
         match kind.as_str() {
             "restart" => {
                 rt.block_on(s.rig.start(&s.w));
+                // volatile certificates (adopted without a view change, hence not persisted) are lost by a restart:
+                // monotonicity of the certificates is a per-incarnation statement
+                self.mon.last_hcqc = None;
+                self.mon.last_htqc = None;
                 let snap = sum_snapshot(&mut s.w, &s.rig.snapshot());
                 (op, json!({"class":"restarted","snap":snap}))
             }
@@ -188,9 +196,17 @@ impl ReplicaProp {
                 }
                 out.count(&format!("class={class}"));
                 let effects: Vec<Value> = obs.events.iter().map(|e| sum_event(&mut s.w, e)).collect();
+                for e in &obs.events {
+                    if let Ev::Notify(j) = e {
+                        let n = s.weights.len();
+                        self.last_notify = Some(serde_json::to_value(abs_just(&mut s.w, n, j)).unwrap());
+                    }
+                }
                 // after a crash / block the real process restarts from its durable state
                 if s.rig.dead {
                     rt.block_on(s.rig.start(&s.w));
+                    self.mon.last_hcqc = None;
+                    self.mon.last_htqc = None;
                 }
                 let snap = s.rig.snapshot();
                 // ---- monitors on the implementation (S)
@@ -289,7 +305,8 @@ fn self_monitors(_pid: &str, mon: &mut Monitor, s: &mut Session, events: &[Ev], 
     mon.max_commit_views = mon.max_commit_views.max(snap.commit_views);
     mon.max_commit_qcs = mon.max_commit_qcs.max(snap.commit_qcs.1);
     mon.max_timeout_qcs = mon.max_timeout_qcs.max(snap.timeout_qcs);
-    if snap.commit_views > n || snap.timeout_views > n || snap.commit_qcs.0 > n || snap.commit_qcs.1 > n || snap.timeout_qcs > n {
+    // one latest view per validator and kind; live views <= n; at most one partial certificate per (live view, voter)
+    if snap.commit_views > n || snap.timeout_views > n || snap.commit_qcs.0 > n || snap.commit_qcs.1 > n * n || snap.timeout_qcs > n {
         out.oracle_fail("vote_cache_unbounded", "a vote cache grew beyond the committee size", op.clone());
     }
 }
@@ -446,7 +463,7 @@ impl ReplicaProp {
             let init = json!({"op":"init","reset":true,"weights":weights,"first":first,"wseed":rng.gen_range(0..100000u64),"me":me,"max_payload":MAX_PAYLOAD});
             let (op, obs) = self.exec_full(&init, out);
             out.emit(op, obs);
-            let mut last_notify: Option<Value> = None;
+            self.last_notify = None;
             let mut fresh = 100u64;
             for _ in 0..steps {
                 let snap = self.s.as_ref().unwrap().rig.snapshot();
@@ -532,57 +549,35 @@ impl ReplicaProp {
                     _ => {
                         let np = *self.s.as_ref().unwrap().rig.engine.0.next_payload.lock().unwrap();
                         let np = if payload_ok(np) { np } else { np + 1 };
-                        json!({"op":"propose","just":last_notify.clone().unwrap_or(Value::Null),"fresh":np})
+                        json!({"op":"propose","just":self.last_notify.clone().unwrap_or(Value::Null),"fresh":np})
                     }
                 };
                 let (op, obs) = self.exec_full(&op, out);
-                // remember the last justification handed to the proposer, as an abstract value the harness can rebuild
-                if let Some(effs) = obs.get("effects").and_then(|e| e.as_array()) {
-                    for e in effs {
-                        if e.get("notify").is_some() {
-                            // rebuild an abstract justification equivalent to the replica's current one
-                            last_notify = self.current_just_abs();
-                        }
-                    }
-                }
                 out.emit(op, obs);
             }
         }
     }
+}
 
-    /// The replica's current justification as an abstract value (fully signed by its actual signers).
-    fn current_just_abs(&mut self) -> Option<Value> {
-        let s = self.s.as_mut().unwrap();
-        let snap = s.rig.snapshot();
-        let n = s.weights.len();
-        let hc = snap.high_commit_qc.as_ref();
-        let ht = snap.high_timeout_qc.as_ref();
-        let use_commit = match (hc, ht) {
-            (Some(c), Some(t)) => c.view().number >= t.view.number,
-            (Some(_), None) => true,
-            (None, Some(_)) => false,
-            (None, None) => return None,
-        };
-        if use_commit {
-            let q = hc.unwrap();
-            let signers: Vec<usize> = (0..n).filter(|i| q.signers.0[*i]).collect();
-            let v = s.w.a_vote(&q.message);
-            Some(serde_json::to_value(AJust::Commit(acqc(n, v, &signers))).unwrap())
-        } else {
-            // timeout certificates are rebuilt group by group
-            let q = ht.unwrap().clone();
+/// A real justification as an abstract value (re-signed by exactly its signers; only meaningful for certificates
+/// that verify, which is what the replica hands to its proposer).
+pub fn abs_just(w: &mut World, n: usize, j: &v2::ProposalJustification) -> AJust {
+    fn abs_cqc(w: &mut World, n: usize, c: &v2::CommitQC) -> ACqc {
+        let signers: Vec<usize> = (0..n.min(c.signers.len())).filter(|i| c.signers.0[*i]).collect();
+        let v = w.a_vote(&c.message);
+        acqc(n, v, &signers)
+    }
+    match j {
+        v2::ProposalJustification::Commit(q) => AJust::Commit(abs_cqc(w, n, q)),
+        v2::ProposalJustification::Timeout(q) => {
             let mut groups = vec![];
             for (t, sg) in &q.map {
-                let hv = t.high_vote.as_ref().map(|v| s.w.a_vote(v));
-                let hq = t.high_qc.as_ref().map(|c| {
-                    let signers: Vec<usize> = (0..n).filter(|i| c.signers.0[*i]).collect();
-                    let v = s.w.a_vote(&c.message);
-                    acqc(n, v, &signers)
-                });
-                let idx: Vec<usize> = (0..n).filter(|i| sg.0[*i]).collect();
-                groups.push((ATVote { view: s.w.a_view(&t.view), hv, hq }, idx));
+                let hv = t.high_vote.as_ref().map(|v| w.a_vote(v));
+                let hq = t.high_qc.as_ref().map(|c| abs_cqc(w, n, c));
+                let idx: Vec<usize> = (0..n.min(sg.len())).filter(|i| sg.0[*i]).collect();
+                groups.push((ATVote { view: w.a_view(&t.view), hv, hq }, idx));
             }
-            Some(serde_json::to_value(AJust::Timeout(atqc(n, s.w.a_view(&q.view), &groups))).unwrap())
+            AJust::Timeout(atqc(n, w.a_view(&q.view), &groups))
         }
     }
 }
